@@ -87,6 +87,10 @@ def render(dirs, lay):
                 exp.append(("A", len(out), len(out) + len(txt) - 1, txt))
                 out.extend(txt)
                 out.extend(b"*/")
+                # what may follow a closed annotation on its line: blanks, a '#' comment, a '###' block
+                # (not after Body and TYPE, whose body state hands a '#' to the schema library: notes/comment-before-body.md)
+                if d.kw not in ("Body", "TYPE") and rng.random() < lay.trivia * 0.6:
+                    out.extend(rng.choice([b" # after the annotation", b"#glued", b" ### block ###", b"\t# tab", b"  "]))
         elif rng.random() < lay.trail:
             out.extend(rng.choice([b" ", b"  ", b"\t"]))
         kwline_end = len(out)   # position of the first line-end byte of the keyword line
